@@ -51,6 +51,12 @@ class P(b1.Plugin):
             td.variants = [gen.Variant("A", shape, [gen.Field(names[0], "L"), gen.Field(names[1], rng.choice(["L", "S"]))])] + td.variants[1:3]
             for k, v in enumerate(td.variants):
                 v.name = gen.VARIANT_NAMES[k]
+        # identifiers outside ASCII (legal since Rust 1.53): names are handled as text in several places of the handler
+        if rng.random() < 0.15:
+            td.name = "Tß%d" % i
+        if kind == "enum" and rng.random() < 0.2:
+            for v in td.variants:
+                v.name = v.name + rng.choice(["é", "ß", "Ω", ""])
         for v in td.variants:
             for f in v.fields:
                 if f.name and f.name.startswith("r#"):
@@ -64,7 +70,7 @@ class P(b1.Plugin):
             if sysk is not None:
                 r = [0.1, 0.4, 0.9][(sysk // 18) % 3]
             if r < (0.33 if u else 0.25):
-                tname = ("custom", "Ren%d" % i)
+                tname = ("custom", rng.choice(["Ren%d", "Ren%d", "Größe%d"]) % i)
             elif r < (0.5 if u else 0.45):
                 tname = ("disable", None) if kind == "struct" else ("default", None)
         for v in td.variants:
@@ -77,7 +83,7 @@ class P(b1.Plugin):
                 if kind == "enum":
                     r = rng.random()
                     if r < (0.33 if u else 0.25):
-                        vname = ("custom", "V%s" % v.name)
+                        vname = ("custom", rng.choice(["V%s", "V%s", "Üv%s"]) % v.name)
                     elif r < (0.67 if u else 0.4):
                         vname = ("disable", None)
             if sysk is not None and v is td.variants[0]:
